@@ -801,7 +801,7 @@ def _gen_cdes(tier, rng, cases):
     for sp in (1, 2, 3, 4):
         for m in ("A", "M"):
             for test in tests:
-                reps = 1 if tier == "quick" else 4
+                reps = 2 if tier == "quick" else 25
                 for _ in range(reps):
                     t0 = rng.choice([-4, 0, 3, 9])
                     n = rng.choice([2 * sp, 3 * sp, 3 * sp + 1, 4 * sp + 2])
@@ -816,7 +816,7 @@ def _gen_cdes(tier, rng, cases):
 
 
 def _gen_det(tier, rng, cases):
-    reps = 40 if tier == "quick" else 500
+    reps = 150 if tier == "quick" else 2500
     for r in range(reps):
         deg = rng.choice([0, 1, 1])
         cfg = ["det", deg] if not (deg == 1 and rng.random() < 0.3) else ["det", 1, "default"]
@@ -860,7 +860,7 @@ def _gen_det(tier, rng, cases):
 
 
 def _gen_col(tier, rng, cases):
-    reps = 12 if tier == "quick" else 120
+    reps = 25 if tier == "quick" else 300
     for cfg in (["bc"], ["log"], ["ad", "minmax"], ["ad", "standard"], ["ad", "binarizer"], ["ad", "log1p"]):
         for r in range(reps):
             t0 = rng.choice([-5, 0, 4, 20])
@@ -882,7 +882,7 @@ def _gen_col(tier, rng, cases):
 def _gen_pass(tier, rng, cases):
     inners = [["des", 2, "A"], ["des", 3, "M"], ["cdes", 2, "A", "true"], ["det", 1], ["det", 0], ["bc"], ["log"],
               ["ad", "minmax"], ["ad", "binarizer"], ["hampel", 3, 3, HAMPEL_K]]
-    reps = 2 if tier == "quick" else 16
+    reps = 4 if tier == "quick" else 40
     for inner in inners:
         for flag in (True, False):
             for _ in range(reps):
@@ -904,7 +904,7 @@ def _gen_pass(tier, rng, cases):
 
 
 def _gen_hampel(tier, rng, cases):
-    reps = 3 if tier == "quick" else 30
+    reps = 10 if tier == "quick" else 150
     for w in (1, 2, 3, 4, 5, 6):
         for _ in range(reps):
             n = rng.randrange(max(2, w - 1), 15)
@@ -918,7 +918,7 @@ def _gen_hampel(tier, rng, cases):
 
 def _gen_positional(tier, rng, cases):
     """transformers that are only observed (not modelled here): shift equivariance on the real code"""
-    reps = 2 if tier == "quick" else 12
+    reps = 3 if tier == "quick" else 40
     cfgs = [["imputer", m] for m in ("drift", "linear", "nearest", "constant", "mean", "median", "bfill", "ffill")]
     cfgs += [["acf", 2], ["acf", 4], ["pacf", 2], ["cos"]]
     for cfg in cfgs:
@@ -934,7 +934,7 @@ def _gen_positional(tier, rng, cases):
 def _rand_cfg(rng):
     r = rng.random()
     if r < 0.35:
-        return ["des", rng.choice([1, 2, 3, 4, 6]), rng.choice(["A", "A", "M"])]
+        return ["des", rng.choice([1, 2, 3, 4, 6, 7, 12]), rng.choice(["A", "A", "M"])]
     if r < 0.45:
         return ["cdes", rng.choice([2, 3, 4]), rng.choice(["A", "M"]), rng.choice(["true", "false", "default"])]
     if r < 0.7:
@@ -949,7 +949,7 @@ def _rand_cfg(rng):
 
 
 def _gen_random(tier, rng, cases, malformed=False):
-    reps = (160 if tier == "quick" else 2500) if not malformed else (60 if tier == "quick" else 600)
+    reps = (500 if tier == "quick" else 9000) if not malformed else (150 if tier == "quick" else 2500)
     for _ in range(reps):
         cfg = _rand_cfg(rng)
         sp = cfg[1] if cfg[0] in ("des", "cdes") else 2
